@@ -19,7 +19,7 @@ from harness.C14 import oracle
 PROPS_GEN = ["no_ub", "compare_mixed_correct", "compare_mixed_correct_unsigned", "compare_mixed_correct_rat", "method_tables_ok", "dispatch_left_then_reversed_right",
              "nary_mod_is_left_fold", "nary_rows_complete", "poly_compare_correct", "compare_chain_correct", "string_entries_complete",
              "math_registrations_ok", "poly_predicates_correct", "parity_predicates_correct", "poly_predicates_table",
-             "s64_type_mixes_agree", "u64_type_mixes_agree"]
+             "s64_type_mixes_agree", "u64_type_mixes_agree", "s64_u64_cross_mixes_agree"]
 PROPS = ["wrap_ops_eq_bitvec", "wrap_ops_in_range", "shift_ops_eq_bitvec", "divf_eq_floor_div", "mod_eq_floor_mod", "trunc_div_rem_correct",
          "mod_zero_is_dividend", "div_zero_errors", "no_ub_iff_guarded", "no_ub_partial", "ub_reachable_on_pinned",
          "cmpIntDbl_is_exact", "cmpIntDbl_eq_rat", "rnd53_exact_small_monotone_edge", "compare_mixed_correct_of_inclusive", "compare_mixed_partial",
